@@ -54,8 +54,8 @@ theorem liftM_total {op : M α} (hs : CoreKeeps off op) (a : AMgr) (hi : AInv of
     rw [hop] at he
     simp only at he
     cases he
-    obtain ⟨h1, h2, h3, h4⟩ := hs.keeps a.m (hext a) hi.mode hi.inv hi.counts r m' hop
-    obtain ⟨i', hd⟩ := hi.after_core h1 h2 h3 h4
+    obtain ⟨h1, h3⟩ := hs.keeps a.m (hext a) hi.minv r m' hop
+    obtain ⟨i', hd⟩ := hi.after_core h1 h3
     exact ⟨i', rfl, hd⟩
 
 /-- `wrapF` / `wrap` with a free id, whatever the integer -/
